@@ -510,12 +510,19 @@ def Line.kind : Line → Kind
 
 /-! ### export -/
 
-/-- the property map the exporter writes for a node: row value where the row has the key,
-otherwise the non-null column value (as a map this is "row first, then columns not already
-present", `mod.rs` export loop) -/
-def exportProps (row col : List (Str × PV)) : List (Str × PV) :=
+/-- pinned tree: the property map the exporter wrote for a node — row value where the row has
+the key, otherwise the non-null column value ("row first, then columns not already present").
+On a clash this is the *superseded* copy: every read path (`node_properties_merged`,
+`resolve_property`) lets the column win. -/
+def exportPropsLegacy (row col : List (Str × PV)) : List (Str × PV) :=
   (nonNull col).map (fun kv => (kv.1, (lookup kv.1 row).getD kv.2))
     ++ row.filter (fun kv => !(keys (nonNull col)).contains kv.1)
+
+/-- the property map the exporter writes for a node.  Repaired code: exactly what the read
+paths resolve — the column wins, the row supplies the rest. -/
+def exportProps (lg : Bool) (row col : List (Str × PV)) : List (Str × PV) :=
+  if lg then exportPropsLegacy row col
+  else nonNull col ++ row.filter (fun kv => !(keys (nonNull col)).contains kv.1)
 
 def hierLine (h : HierS) : Line := .hier h
 
@@ -523,8 +530,8 @@ def hierLine (h : HierS) : Line := .hier h
 def hierLineLegacy (h : HierS) : Line := .hier { h with reverse := false, mlabel := none }
 
 def nodeLines (lg : Bool) (n : NodeS) : List Line :=
-  (if lg then n.hist.map (fun r => Line.node n.id n.labels (encKV lg (exportProps r n.col))) else [])
-    ++ [Line.node n.id n.labels (encKV lg (exportProps n.row n.col))]
+  (if lg then n.hist.map (fun r => Line.node n.id n.labels (encKV lg (exportProps lg r n.col))) else [])
+    ++ [Line.node n.id n.labels (encKV lg (exportProps lg n.row n.col))]
 
 def edgeLine (lg : Bool) (e : EdgeS) : Line := .edge e.id e.src e.tgt e.ty (encKV lg e.props)
 
